@@ -3,7 +3,8 @@
 Two layers on the real Cluster/Session/HostConnection/Connection/ResponseFuture code, one host,
 scaled-down stream-id space (see vt/c09lib.py):
 
- E  breadth-first search over histories of {send the next tagged request, the server answers any
+ E  breadth-first search over histories of {send the next tagged request, switch the session's keyspace
+    (USE, which makes the driver multiplex its own USE on every pooled connection), the server answers any
     unanswered request (also one whose client already timed out), the client timeout of any
     request fires, the connection fails, the next executor task runs (connection replacement)},
     with canonical-state dedup; every clause of the property is judged in every state.
@@ -19,6 +20,7 @@ from vt.core import Part, HarnessError
 
 import os
 KS = ['ks1', 'ks2']
+NONTRIVIAL = set(['reuse', 'orphan', 'use-switched', 'use-noop'])
 
 import cassandra.connection as _conn
 import cassandra.pool as _pool
@@ -27,19 +29,25 @@ import cassandra.cluster as _cluster
 META = {
     'level': 'model_checking',
     'engine': 'E+S',
-    'technique': 'explicit-state BFS over send/answer/timeout/late-answer/failure histories with canonical-state dedup, plus '
+    'technique': 'explicit-state BFS over send/keyspace-switch/answer/timeout/late-answer/failure histories with canonical-state dedup, plus '
                  'preemption-bounded line-granular schedule enumeration of client threads against the reactor thread, on the real '
                  'Session, HostConnection, Connection and ResponseFuture',
     'text': 'One host, connections with a scaled-down stream-id space (3-4 ids, 2 free after the handshake, orphan threshold 2; also protocol '
             'v2 with the legacy pool: 2 connections x 2 ids) so that exhaustion, growth of highest_request_id, reuse, orphaning and connection '
             'replacement occur within 3-5 requests.  Every answer carries the tag of the request the server received on that stream. '
             'E: all histories up to the depth bound of send / answer any unanswered request in any order (rows, or overloaded + retry on the '
-            'same host) / client timeout of any request / late answer to a timed-out request / connection failure / next executor task. '
-            'S: 2 client threads x 1-2 execute_async, on top of a prologue that leaves a request outstanding or orphaned, against a reactor '
+            'same host) / client timeout of any request / late answer to a timed-out request / connection failure / next executor task; '
+            'in the keyspace configurations also session-wide keyspace switches (the application executes USE ks1 / USE ks2 in any order '
+            'and repetition: first switch, repeated switch to the keyspace already selected, switch back; session connected with or without '
+            'a keyspace; HostConnection and the legacy pool), where the application USE and the USE that Connection.set_keyspace_async '
+            'multiplexes on the pooled connection are held and answered (or timed out, or lost with the connection) like any other request, '
+            'and a replacement connection is opened with set_keyspace_blocking (wait_for_response). '
+            'S: 2 client threads x 1-2 execute_async (or one thread switching the keyspace, on a session with no keyspace / already on that '
+            'keyspace / with no recycled id free), on top of a prologue that leaves a request outstanding or orphaned, against a reactor '
             'thread that delivers answers, fires one client timeout (thorough: and one connection failure) in every order; every schedule '
             'within the preemption bound, scheduling points at lock operations and at every line of Connection.get_request_id/send_msg/'
-            'process_msg, HostConnection.borrow_connection/return_connection, ResponseFuture._query/_on_timeout/_set_result. '
-            'Oracle: no request arrives at the server on a stream on which another is still unanswered; no stream id beyond the '
+            'process_msg/set_keyspace_async, HostConnection.borrow_connection/return_connection, ResponseFuture._query/_on_timeout/_set_result. '
+            'Oracle: no request (USE included) arrives at the server on a stream on which another is still unanswered; no stream id beyond the '
             'maximum; a callback only ever receives the tag of its own request, once; in_flight equals the number of unanswered '
             'requests; the free list never holds an id twice or an id in use; whenever everything sent on an open connection is '
             'answered: in_flight 0, no orphans, every id 0..highest free exactly once.',
@@ -72,10 +80,13 @@ class H(explore.Harness):
         part.outcome(fk)
         for fl in fk:
             part.count('E_transitions_with_' + fl)
-        if 'reuse' in st.flags or 'orphan' in st.flags:
+        if st.flags & NONTRIVIAL:
             part.mark_nontrivial(repr(st.canon()))
         if 'reuse' in st.flags and 'late' in st.flags:
             part.sample({'layer': 'E', 'history': hist, 'arrivals (conn, stream, tag)': st.arrivals, 'flags': list(fk)}, limit=1)
+        if 'use-noop' in st.flags and 'use-switched' in st.flags and 'reuse' in st.flags:
+            part.sample({'layer': 'E', 'keyspace switches': True, 'history': hist, 'arrivals (conn, stream, tag)': st.arrivals,
+                         'flags': list(fk)}, limit=1)
 
 
 def e_configs(ctx):
@@ -94,12 +105,13 @@ def e_configs(ctx):
         ('v2-pool', dict(base, protocol_version=2, max_in_flight=1, n_req=5, max_faults=0), 8, 10),
         # keyspace switches multiplexed with the requests (ids 0..2): USE ks1 / USE ks2 in any order and repetition (first switch,
         # repeated switch to the keyspace the connection is on, switch back)
-        ('v4-use', dict(base, max_in_flight=3, initial_ids=1, n_req=2, n_use=3, keyspaces=KS, max_faults=0), 8, 10),
+        ('v4-use', dict(base, max_in_flight=3, initial_ids=1, n_req=1, n_use=3, keyspaces=KS, max_faults=0), 7, 9),
         # the session was connected with ks1 (the pool opened its connection with set_keyspace_blocking); one connection failure:
         # the replacement is opened with the pool's current keyspace
-        ('v4-use-connected-fault', dict(base, max_in_flight=3, initial_ids=1, n_req=2, n_use=2, keyspaces=KS, keyspace='ks1', max_faults=1), 7, 9),
+        ('v4-use-connected-fault', dict(base, max_in_flight=3, initial_ids=1, n_req=1, n_use=2, keyspaces=KS, keyspace='ks1', max_faults=1), 6, 8),
         # legacy pool: every connection of the pool is switched
-        ('v2-use', dict(base, protocol_version=2, max_in_flight=1, n_req=2, n_use=2, keyspaces=KS, max_faults=0), 7, 9),
+        # (ids 0..3 per connection: a switch never finds a connection at full capacity, see the assumptions)
+        ('v2-use', dict(base, protocol_version=2, max_in_flight=3, n_req=1, n_use=2, keyspaces=KS, max_faults=0), 6, 8),
     ]
     only = os.environ.get('C09_ONLY')
     return [(n, p, dt if ctx.thorough else dq) for n, p, dq, dt in cfgs if not only or n in only.split(',')]
@@ -118,7 +130,7 @@ def _code(f):
 FOCUS = [_code(_conn.Connection.get_request_id), _code(_conn.Connection.send_msg), _code(_conn.Connection.process_msg),
          _code(_pool.HostConnection.borrow_connection), _code(_pool.HostConnection.return_connection),
          _code(_cluster.ResponseFuture._query), _code(_cluster.ResponseFuture._on_timeout),
-         _code(_cluster.ResponseFuture._set_result)]
+         _code(_cluster.ResponseFuture._set_result), _code(_conn.Connection.set_keyspace_async)]
 
 
 @sched.gc_quiet
@@ -132,12 +144,19 @@ def s_harness(params, prefix, part):
         s = sched.Scheduler(prefix, focus=FOCUS, horizon=30000, clock=w.clock)
         plan = params['clients']
         done = [0]
+        slow = list(st.pending())
 
-        def client(ci, n):
+        def client(ci, ops):
+            # ops: a number of ordinary requests, or a list of 'send' / 'use<k>' (session-wide switch to keyspace k)
+            ops = ['send'] * ops if isinstance(ops, int) else list(ops)
+
             def body():
                 try:
-                    for k in range(n):
-                        st.send(c09lib.TAG0 + 10 * (ci + 1) + k)
+                    for k, op in enumerate(ops):
+                        if op == 'send':
+                            st.send(c09lib.TAG0 + 10 * (ci + 1) + k)
+                        else:
+                            st.send_use(int(op[3:]))
                 finally:
                     done[0] += 1
             return body
@@ -150,6 +169,9 @@ def s_harness(params, prefix, part):
                 clients_done = done[0] == len(plan)
                 if clients_done and not pend:
                     break
+                if params.get('slow_setup') and not clients_done:
+                    # the requests of the prologue are slow queries: answered once the clients are through
+                    pend = [q for q in pend if q not in slow]
                 tmo = [f for f, t in st.timeout_timers() if f in fired or len(fired) < params.get('timeouts', 1)]
                 opts = [('respond', p) for p in pend] + [('timeout', f) for f in tmo]
                 if not clients_done and not opts:
@@ -197,8 +219,8 @@ def s_harness(params, prefix, part):
             part.count('S_executions_with_' + fl)
         if preempted:
             part.count('S_executions_preempted')
-        if 'reuse' in st.flags or 'orphan' in st.flags:
-            part.mark_nontrivial(repr((params['clients'], params.get('initial_ids'), s.choices())))
+        if st.flags & NONTRIVIAL:
+            part.mark_nontrivial(repr((params['clients'], params.get('initial_ids'), params.get('setup'), s.choices())))
         if 'reuse' in st.flags and 'orphan' in st.flags and preempted:
             ch = s.choices()
             part.sample({'layer': 'S', 'clients': plan, 'setup': params.get('setup', []), 'choice_points': len(ch),
@@ -224,6 +246,13 @@ def s_configs(ctx):
         ('2+1', dict(base, clients=[2, 1]), None, 1),
         # ids 0..3: one outstanding, one orphaned, highest_request_id grows under the two clients
         ('4ids-pre2-1+1', dict(base, max_in_flight=4, setup=[('send',), ('send',), ('timeout', 1)], clients=[1, 1]), None, 1),
+        # a client switches the session to ks1 (the reactor thread then switches the connection with a multiplexed USE) while
+        # another client sends a request
+        ('use+1', dict(base, keyspaces=KS, n_use=9, clients=[['use0'], 1]), None, 1),
+        # ids 0..3, one request outstanding, no recycled id free: the id of the multiplexed USE and that of the client are both minted
+        ('4ids-pre1-use+1', dict(base, max_in_flight=4, keyspaces=KS, n_use=9, setup=[('send',)], slow_setup=True, timeouts=0, clients=[['use0'], 1]), 1, 1),
+        # the session is already on ks1: the switch finds the connection on the requested keyspace
+        ('onks1-use+1', dict(base, keyspaces=KS, n_use=9, setup=[('use', 0), ('respond', 0), ('respond', 0)], clients=[['use0'], 1]), 1, 1),
     ]
     only = os.environ.get('C09_ONLY')
     return [(n, p, bt if ctx.thorough else bq) for n, p, bq, bt in cfgs if (bt if ctx.thorough else bq) is not None
@@ -247,6 +276,8 @@ def _layer(ctx, name, fn):
         'with_stream_id_reuse': d.get(name + '_transitions_with_reuse', d.get(name + '_executions_with_reuse', 0)),
         'with_orphaned_request': d.get(name + '_transitions_with_orphan', d.get(name + '_executions_with_orphan', 0)),
         'with_late_answer_to_orphan': d.get(name + '_transitions_with_late', d.get(name + '_executions_with_late', 0)),
+        'with_connection_switched_by_multiplexed_USE': d.get(name + '_transitions_with_use-switched', d.get(name + '_executions_with_use-switched', 0)),
+        'with_switch_to_keyspace_already_selected': d.get(name + '_transitions_with_use-noop', d.get(name + '_executions_with_use-noop', 0)),
         'wall_s': round(time.time() - t0, 1)}
 
 
@@ -259,13 +290,20 @@ def run(ctx):
                        'Session.  Non-trivial = distinct canonical state (E) / distinct schedule (S) in which a stream id was really used a second '
                        'time on a connection or a request was really orphaned by its client timeout.  Outcomes = the set of things that happened '
                        '(reuse, orphan, late answer to an orphan, growth of highest_request_id, exhaustion, orphan threshold, replacement, '
-                       'connection failure, busy-wait in borrow_connection), for S also whether the schedule switched threads mid-way')
+                       'connection failure, busy-wait in borrow_connection, use-sent/use-switched = a keyspace switch made the driver send its own '
+                       'USE on the pooled connection / that USE was answered, use-noop = a switch found the connection already on the keyspace), '
+                       'for S also whether the schedule switched threads mid-way.  Non-trivial also counts states/schedules with a keyspace switch '
+                       'that reached the pooled connection')
     ctx.cov['preemption_bound'] = dict((n, b) for n, _, b in s_configs(ctx))
     ctx.cov['depth_bound'] = dict((n, d) for n, _, d in e_configs(ctx))
     ctx.assume('engine E: handlers are atomic with respect to each other (single-threaded histories)')
     ctx.assume('engine S: client timeouts are served by the reactor thread (as in the asyncore, libev, twisted, asyncio, gevent and eventlet '
                'reactors), never concurrently with process_msg; preemption at source-line granularity inside the focus functions and at lock operations')
     ctx.assume('virtual server answers are well-formed frames of the negotiated protocol version')
+    ctx.assume('keyspace switches: a USE on a connection in service is held and answered by the explorer; a USE on a connection that is still '
+               'being opened (pool creation, replacement: set_keyspace_blocking) is answered at once, the opener blocks on it.  The '
+               'configurations are sized so that a switch never finds a connection at full capacity: Connection.set_keyspace_async '
+               'busy-waits for a free slot on the event-loop thread, which the single-threaded layer E cannot run (it would raise a harness error)')
     ctx.assume('the id space is scaled down (max_in_flight 3-4, initial free list 1-2 ids, orphaned_threshold 2); the code paths are the same as for 32768 ids')
 
 
